@@ -50,7 +50,8 @@ Definition kv6 (s : tcp_sig) (g : segment) : bool :=
   negb (forallb (quirk_applies (seg_ver g)) (t_quirks s)).
 (* C03's classes that change the SIGNATURE part of the report (K2 concerns the MTU only, K3 non-handshake segments):
    K1 bytes after end-of-options, K4 quirk order/duplicates (stated on the list the model produces), K5 malformed
-   options / NS bit, K7 the MTU divisor formed with header words *)
+   options (the NS-bit part was repaired by 9733023), K7 a window field above 65535 (never true of a decoded segment;
+   the MTU-divisor defect it used to name was repaired by 44d12e9) *)
 Definition known_c03 (g : segment) (model_quirks : list quirk) : bool :=
   K1 g || K4_of model_quirks || K5 g || K7 g.
 Definition known_tcp13 (s : tcp_sig) (g : segment) (model_quirks : list quirk) : bool :=
@@ -135,7 +136,10 @@ Definition parse_http_case (l : bytes) : option (hkind * N * msg * bytes) :=
 (* ---------------- liveness decider (TCP) ---------------- *)
 (* initial TTL one of those the extractor's hop-count rule assumes *)
 Definition ttl_live (t : ttl) : bool :=
-  match t with TtlValue i => existsb (N.eqb i) initial_ttls | _ => false end.
+  match t with
+  | TtlValue i => existsb (N.eqb i) initial_ttls
+  | TtlBad _ => true            (* since fdb1660 the matcher accepts every observed TTL that does not exceed NN *)
+  | _ => false end.
 (* no `eol+n` with padding: the code renders that as a chain (K1), so no packet outside K1 conforms *)
 Definition layout_live (l : list tcp_option) : bool :=
   forallb (fun o => match o with OEol n => n =? 0 | _ => true end) l.
